@@ -121,6 +121,12 @@ def replay(case):
             if np.any(np.diff(np.real(ev)) > 1e-9 * scale):
                 out.append(('amuset:order', 'eigenvalues are not returned in descending order'))
                 break
+            # a rank cap that does not bind (number of snapshots) must not change anything
+            evc, _, _ = quiet(tg.amuset_hosvd, x, basis(), sig, return_option=opt, max_rank=m, **kw)
+            evc = np.asarray(evc)
+            if evc.shape != ev.shape or np.max(np.abs(np.real(evc) - np.real(ev))) > 1e-6 * scale:
+                out.append(('amuset:max_rank', 'max_rank=%d (not binding) changed the eigenvalues: %r vs %r' % (m, np.round(np.real(evc), 6), np.round(np.real(ev), 6))))
+                break
             # num_eigvals = k returns the first k of them (relative threshold: the same cut of exact zeros)
             if len(ev) >= 2:
                 k = 1 + (m % min(2, len(ev) - 1 if len(ev) > 2 else 1))
